@@ -129,6 +129,7 @@ func inputStreams(t *testing.T, st *report.Stats, sc streamCfg, fn func(stream s
 	enum("enum-bool", gen.BoolAlphabet(), sc.focusLen)
 	enum("enum-range", gen.RangeAlphabet(), sc.focusLen)
 	enum("enum-unary", gen.UnaryAlphabet(), sc.focusLen)
+	enum("enum-cmp", gen.CmpAlphabet(), sc.focusLen)
 
 	dfGen := rapid.SampledFrom([]string{"", "", "dflt", "my field", `d"q`, "ü", "AND", "5"})
 	st.Rapid(t, "printed-trees", sc.trees, func(rt *rapid.T) {
